@@ -424,6 +424,28 @@ func TestC13(t *testing.T) {
 		}
 		behBatch(t, c, c13NonTrivial, c13Check, nil)
 	}
+	// (2c) hand-built: placeholders (todo: true) that declare getters - equal to a real service's getter, reserved, with
+	// must_getter and type: a placeholder adds no methods, so none of this may collide or fail to compile
+	if ev.Mine(2) {
+		behCompileErrIsViolation = true
+		var c behCase
+		for v := 0; v < 2; v++ {
+			conf := cfg.Config{Meta: cfg.Meta{Pkg: sp("app")}, Services: []cfg.Service{
+				{Name: "ph1", Todo: bp(true), Getter: sp("GetX")},
+				{Name: "ph2", Todo: bp(true), Getter: sp("GetParam"), Must: bp(true)},
+				{Name: "ph3", Todo: bp(true), Getter: sp("GetY"), Must: bp(true), Type: sp("*fx/lib.Obj")},
+				{Name: "ph4", Todo: bp(true), Getter: sp("GetX")},
+				{Name: "real", Ctor: sp("fx/lib.NewObj"), Getter: sp("GetX"), Type: sp("*fx/lib.Obj"), Must: bp(true)},
+				{Name: "real2", Ctor: sp("fx/lib.NewObj"), Getter: sp("GetZ")},
+			}}
+			if v == 1 {
+				conf.Meta.DefaultMust = bp(true)
+			}
+			c.Members = append(c.Members, behMember{Files: []cfg.Config{conf}, Script: c13Script(conf), Labels: []string{"hand-built:placeholders-declaring-getters"}})
+		}
+		behBatch(t, c, c13NonTrivial, c13Check, nil)
+		behCompileErrIsViolation = false
+	}
 	// (3) documented default names: package main / Gontainer / NewGontainer (linked one by one)
 	for i := 0; i < pick(1, 4); i++ {
 		if !ev.Mine(i) {
